@@ -7,7 +7,7 @@ from . import C03
 from .lib import decision, guards, paths
 from .lib.mir import AnchorLost
 
-CONFIGS_QUICK = ["A"]
+CONFIGS_QUICK = ["A", "R"]
 CONFIGS_THOROUGH = ["A", "R", "ASYNCSTD", "SMOL", "NIO", "GLOMMIO"]
 TECHNIQUE = "order/dominance rules on the stream arm of the send coroutine (built MIR), literal framing tables, decision-table extraction of QueueStream::poll_next"
 LEVEL_TEXT = ("Decides clauses C17-a..d: in the stream arm of Response::send the head is written and flushed before the first item; each item is framed as "
